@@ -102,11 +102,43 @@ def corpus(ctx, texts):
     return list(dict.fromkeys(out))
 
 
+def _coq_tree_key():
+    import hashlib
+    import os
+    from .. import paths
+    h = hashlib.sha1()
+    for root in ('theories', 'gen'):
+        for dp, _, fs in sorted(os.walk(os.path.join(paths.COQ, root))):
+            for f in sorted(fs):
+                if f.endswith('.v'):
+                    st = os.stat(os.path.join(dp, f))
+                    h.update(('%s/%s %d %d\n' % (dp, f, st.st_mtime_ns, st.st_size)).encode())
+    st = os.stat(os.path.join(paths.COQ, '_CoqProject'))
+    h.update(('proj %d %d' % (st.st_mtime_ns, st.st_size)).encode())
+    return h.hexdigest()
+
+
 def capstone_obligations(res, prefix):
     """proof obligations of Props/Capstone.v (source-level corollaries of compile_bash); `prefix` selects the
-    theorem names the calling check reports (e.g. 'C14_'): one-liner for the check of the property they serve"""
-    from .. import coqcheck
-    extra = coqcheck.check_property('Capstone')
+    theorem names the calling check reports (e.g. 'C14_'): one-liner for the check of the property they serve.
+    Four checks call this; the verdict for one state of the Coq sources (paths, sizes, mtimes of every .v and of
+    _CoqProject) is computed once and kept in .cache/capstone-obligations.json."""
+    import json
+    import os
+    from .. import coqcheck, paths
+    cache = os.path.join(paths.CACHE, 'capstone-obligations.json')
+    key = _coq_tree_key()
+    extra = None
+    try:
+        c = json.load(open(cache))
+        if c.get('key') == key and c['result'].get('ok'):
+            extra = c['result']
+    except Exception:
+        extra = None
+    if extra is None:
+        extra = coqcheck.check_property('Capstone')
+        if _coq_tree_key() == key:
+            json.dump(dict(key=key, result=extra), open(cache, 'w'), default=str)
     if not extra['ok']:
         res.violations.append(report.Violation('proof obligations of Props/Capstone.v (source-level corollaries of compile_bash) no longer check',
                                                dict(kind='proof-obligation', property='Capstone', errors=extra['errors'][:5]), found_input=False))
